@@ -27,7 +27,7 @@ CHECKS = {
              'byte-prefixes of every data-file write become crash images reopened with the real FileStorage, the full query '
              'table of the recovered storage must equal a version of the model history, and TLC validates each trace '
              '(operation order, flags, fsync between flip and acknowledgement, every probe = number of flipped transactions).',
-        note='crash model = prefix of issued raw operations with torn last write; quick samples torn cuts, thorough enumerates '
+        note='every third crash image is also opened read-only (same committed prefix; F29 fixed); crash model = prefix of issued raw operations with torn last write; quick samples torn cuts, thorough enumerates '
              'every byte for 1 in 5 behaviours',
         design='6/C01'),
     'C08': dict(
@@ -43,7 +43,7 @@ CHECKS = {
              'pack(serial history) as evaluated by TLC, readers only see committed revisions, second pack refused; systematic '
              'single-preemption sweeps (each thread stopped after its k-th yield point while the others run to completion), with and '
              'without a blob directory.',
-        note='schedules at lock-operation and file-I/O granularity, seeded random plus systematic sweeps; readers use current loads (snapshots not older than the pack time)',
+        note='lister thread (iterator / undoLog / lastInvalidations during a pack; F56 fixed), failing removal of .old (F33 fixed), three pack requests never side by side; schedules at lock-operation and file-I/O granularity, seeded random plus systematic sweeps; readers use current loads (snapshots not older than the pack time)',
         design='6/C08'),
     'C09': dict(
         technique='same ZFile/ZFileTrace specification; probes opening every quiescent directory state with every earlier saved '
@@ -53,7 +53,7 @@ CHECKS = {
              '.tmp/.pack/.old/.index_tmp/.lock) and read-only; the opened storage must answer every query like the version of '
              'the history the data file alone determines; read-only opens must leave the directory byte- and mtime-identical '
              'and refuse 7 writing calls.',
-        note='pack crash states belong to C08; bit damage inside an index is outside the guarantee',
+        note='time travel (stop=tid) with / without index (F51 fixed), read-only open with a missing blob directory (F52 fixed); pack crash states belong to C08; bit damage inside an index is outside the guarantee',
         design='6/C09'),
     'C02': dict(
         technique='TLA+ spec ZMvcc (MVCC adapter, connection cache, pool, finish/invalidation at lock granularity) '
@@ -67,7 +67,7 @@ CHECKS = {
              'mid-transaction, sync(), undo, readCurrent, savepoints, commits aborted after the vote; next to seeded random schedules, '
              'systematic one- and two-level preemption sweeps (a thread stopped after its k-th yield point for every k) over '
              'directed programs, with records larger than a read buffer and yield points before and after every raw file read.',
-        note='lock-operation and file-I/O granularity; seeded random schedules (quick 600, thorough 20000) plus systematic sweeps; packer threads in C08',
+        note='programs incl. voted-then-aborted commits, savepoint rollback with readCurrent (F50 fixed), window sweep at source-line granularity inside the read-file pool (F39 fixed); lock-operation and file-I/O granularity; seeded random schedules (quick 600, thorough 20000) plus systematic sweeps; packer threads in C08',
         design='6/C02'),
     'C03': dict(
         technique='TLA+ spec ZStorage (NoLostUpdate, StoredIsMerge) model-checked by TLC; conflict-heavy TLC behaviours '
@@ -88,7 +88,7 @@ CHECKS = {
              'refused by the file-size quota, every low-level write of the vote failing in turn (error / short write), a reader '
              'racing with the vote, foreign-transaction calls are replayed: query table equal to the table before begin, data '
              'file byte-identical, following transactions commit as specified; a call that never returns is reported (watchdogs).',
-        note='persistent I/O failure (every later operation fails too) is a labelled class of the thorough tier (F13); blobs in C13',
+        note='the abort-heavy behaviours also run through a DemoStorage over the FileStorage (F30 fixed); persistent I/O failure (every later operation fails too) is a labelled class of the thorough tier (F13); blobs in C13',
         design='6/C05'),
     'C06': dict(
         technique='TLA+ transcription of FileStorage._transactionalUndoRecord in ZStorage, UndoSemantics checked by TLC; '
@@ -97,7 +97,7 @@ CHECKS = {
              'class merge; everything else untouched; failure changes nothing) on the specification; conformance: undo() '
              'on the real FileStorage must return the same oids or raise UndoError exactly as specified and all queries '
              'must equal the specification table after commit and after reopen.',
-        note='storage API level; visibility of an undo to other connections at their next boundary is decided by the C02 traces '
+        note='differential pack transparency (the same calls with / without the pack entries, both evaluated by TLC): F40 known; storage API level; visibility of an undo to other connections at their next boundary is decided by the C02 traces '
              '(UndoVote / Deliver to every instance, cache projection at PollApply)',
         design='6/C06'),
     'C10': dict(
@@ -107,7 +107,7 @@ CHECKS = {
              'checks StoredIsMerge; conformance over classes plain / resolving / failing / not importable / declining / resolving with '
              'constructor arguments that share pickled objects with the state, over strong / weak / bare reference formats, on '
              'store and undo paths, tpc_vote returning exactly the resolved oids.',
-        note='file storage paths; demo path in C16',
+        note='cross-database reference formats incl. a class not importable at resolution time; file storage paths; demo path in C16',
         design='6/C10'),
     'C07': dict(
         technique='TLA+ transcription of the FileStorage packer and of MappingStorage.pack at history level checked by TLC '
@@ -117,7 +117,7 @@ CHECKS = {
              'by TLC on the transcriptions exhaustively for small constants and along every simulated behaviour; '
              'conformance: the real packed history and all queries on the record chain equal the transcription result, '
              'including commits, undos and reopen after the pack.',
-        note='history level (bytes of the pack in C08/C09 machinery); pack times at second boundaries; blobs in C13',
+        note='PackOK evaluated by TLC clause by clause at every pack step of every script (F54 known); objects referenced by bare oid only; tid-reuse monitor (F55 fixed); multi-undo (F27 fixed); history level (bytes of the pack in C08/C09 machinery); pack times at second boundaries; blobs in C13',
         design='6/C07'),
     'C11': dict(
         technique='TLA+ spec ZConn (Connection bookkeeping: registered/added/creating/modified, cache membership, commit split into '
@@ -131,7 +131,7 @@ CHECKS = {
              'manager failing in each phase before/after the connection, an unpicklable value; after every action (4 points inside '
              'commit) jar/oid/_p_changed/serial/state, the connection sets, what a load returns, a second connection view and the '
              'last transaction records must equal the state TLC printed.',
-        note='bounded (2 objects, 3 actions per transaction, 1-2 commits; quick samples the graphs, thorough replays all transitions + '
+        note='BeginFails, AddWhileFailed (F41 fixed), ImportInTxn (F34 fixed), commit-lock probe and watchdog; bounded (2 objects, 3 actions per transaction, 1-2 commits; quick samples the graphs, thorough replays all transitions + '
              '3-object simulation); F16, F23 known findings; C persistent/transaction trusted',
         design='6/C11'),
     'C12': dict(
@@ -142,7 +142,7 @@ CHECKS = {
              'with the constants set (F2 fixed a524578: red if the aliasing returns); tours over five graphs (two savepoints, repeated '
              'rollback, reachability, conflict at commit, blobs, a savepoint or savepoint-commit raising part-way) replayed with projection of TmpStore and of every live savepoint '
              'state tuple and validity, store file closed / blob directory gone, a second connection polled after every action.',
-        note='bounded (<=3 savepoints, <=6 actions per transaction; quick samples, thorough exhaustive + simulation); F3 known finding; '
+        note='import graphs; rollback after a second savepoint; bounded (<=3 savepoints, <=6 actions per transaction; quick samples, thorough exhaustive + simulation); F3 known finding; '
              'state of un-added objects judged by C11',
         design='6/C12'),
     'C13': dict(
@@ -157,7 +157,7 @@ CHECKS = {
              'undo/redo chains incl. of a creation and failing undo, packs at every time with/without pack_keep_old; after every call '
              'the *.blob files (oid, tid, md5, mode), <blobs>.old, dirty_oids, tmp/, reads through fresh and per-tid historical '
              'connections, c1 views and the iterator must equal the TLC state; the C13 verdict per state is the derived variable viol.',
-        note='exhaustive only on 1 blob/1 atom/2-3 transactions; replays 3-4 blobs, <=10 transactions; F4 fixed (f22d60a), F15 and F3 '
+        note='three flavours (FileStorage+blob_dir, wrapper over Mapping, wrapper over FileStorage); foreign calls at every phase, late bookkeeping race, failing copies / chmod, open handles, pack during commit (F31 F32 F42-F45 fixed; F48 known); exhaustive only on 1 blob/1 atom/2-3 transactions; replays 3-4 blobs, <=10 transactions; F4 fixed (f22d60a), F15 and F3 '
              'known findings; BlobStorage over an undo-capable storage not covered; tmp/ leaks counted not judged',
         design='6/C13'),
     'C14': dict(
@@ -169,7 +169,7 @@ CHECKS = {
              'missing), committed on Mapping/FileStorage in a 2-database multi-database with 6 oid byte patterns (incl. all-ASCII), '
              'loaded in another connection; every raw record is decoded without ZODB.serialize and referencesf/get_refs are '
              'compared with the reference sets TLC printed.',
-        note='pickle byte level not modelled; import judged on ordinary-reference exports only; the weak-adds deviation is the '
+        note='savepoints / rollback / import in the mutation programs, connection life-cycle; F34 fixed, F35-F38 known; pickle byte level not modelled; import judged on ordinary-reference exports only; the weak-adds deviation is the '
              'named constant WeakAdds; F20 (placeholder newargs lost on ghostification) known finding',
         design='6/C14'),
     'C15': dict(
@@ -182,7 +182,7 @@ CHECKS = {
              're-read; writes must raise ReadOnlyHistoryError and leave the commit lock free; future points must be refused; secondary '
              'connections of a multi-database obtained from a historical connection must carry the same bound, read the same state '
              'and refuse writes.',
-        note='FileStorage histories without pack; sampled bounds (5 per commit) in quick',
+        note='multi-database secondary connections, DemoStorage histories, live + historical connection in one transaction (F57 fixed); FileStorage histories without pack; sampled bounds (5 per commit) in quick',
         design='6/C15'),
     'C16': dict(
         technique='TLA+ spec ZDemo (DemoStorage as a stack of ZHistory layers: transcription of loadBefore with the seam walk, '
@@ -200,7 +200,7 @@ CHECKS = {
              'conforms are reported with the cause as signature; 2-3 committer threads on DemoStorage (plain, over a base with '
              'history, with FileStorage changes) under the cooperative scheduler must leave the TLC-evaluated serial execution in '
              'the order the commits returned (tids increasing in that order).',
-        note='bounded (2 oids, <=3 layers; exhaustive <= 2+3 transactions, scenarios/simulation <= 12); base not packed; blob '
+        note='blob records through storeBlob / loadBlob (F28 fixed), pack-seam family (F53 known), committer threads; bounded (2 oids, <=3 layers; exhaustive <= 2+3 transactions, scenarios/simulation <= 12); base not packed; blob '
              'records in C13; F10 fixed (b44a8d5); F24, F25, F26 known findings; c16.TREE holds the deviation constants of the tree',
         design='6/C16'),
     'C17': dict(
@@ -216,7 +216,7 @@ CHECKS = {
              'every run against the loop model and judges Terminates, prefix-before-damage recovered, output an ordered unchanged '
              'subsequence, undamaged file identical; (c) TLC proves Terminates for the repaired scan transcription, exhibits the '
              'F5 lasso with AsCode=TRUE, and the real scan() must give the dumped graph result on every dot/fill pattern.',
-        note='bounded models; single damaged range or truncation per run; transactions touching damaged bytes (own or through '
+        note='range copies src.iterator(start) evaluated by TLC (F59 fixed, F60 known); fsrecover output judged record for record (F58 fixed); bounded models; single damaged range or truncation per run; transactions touching damaged bytes (own or through '
              'back-pointers) are exempt from "unchanged"; below a pack time only the record chain is judged (F17); F5 fixed '
              '(6b5c235), F22 fixed (bb4d219)',
         design='6/C17'),
@@ -229,7 +229,7 @@ CHECKS = {
              'missing/truncated/altered) is replayed, every state recovery at every run date (bytes vs the snapshot of the '
              'committed part, restored index vs a scan, pair opened by FileStorage) and full+quick verification are real calls '
              'compared with the table TLC printed and with what the property demands.',
-        note='bounded (3 chunks, 3 runs, 6/7 operations; deeper graphs sampled in thorough); equal-sized transactions; F14 fixed '
+        note='same-second backups (F46 fixed), truncated dates (F47 fixed), damage to every file of every generation (F49 known); bounded (3 chunks, 3 runs, 6/7 operations; deeper graphs sampled in thorough); equal-sized transactions; F14 fixed '
              '(b25fa04), F18 recorded as known findings (chain selection by directory listing)',
         design='6/C18'),
     'C19': dict(
@@ -250,7 +250,7 @@ CHECKS = {
         text='new_oid of the real storages must return the oid the specification returns and the monitor requires it to be '
              'new for the session and absent from the storage, through stores/restores of arbitrary oids (data and undone-creation '
              'records), aborts, reopen.',
-        note='file and mapping storages; demo layers in C16; concurrent allocators with the scheduler part',
+        note='allocation on DemoStorage stacks; oids spread over index buckets with new_oid; source-line granularity inside the allocators; file and mapping storages; demo layers in C16; concurrent allocators with the scheduler part',
         design='6/C20'),
 }
 
